@@ -3,16 +3,20 @@
 
    program/condition/atom_cond.py
      is_reduced     = poly1.is_Symbol and poly2.is_Integer
-     is_normalized  = poly1.is_Symbol and poly2.is_Integer and cop == "=="
+     is_normalized  = poly1.is_Symbol and poly2.is_Number and cop == "=="     (a5588d1; before: is_Integer)
      get_normalized = NormalizingException unless reduced; (self, [self]) if the variable has no
                       finite type; else the Or-chain of  var == v  over get_valid_values(type, cop, value)
      to_arithm      = ArithmConversionException unless is_normalized / finitely typed
      subs           = substitution in both polynomials
-   program/transformer/constants_transformer.py   assign.subs(fixed_constants) AFTER ConditionsReducer
-   recurrences/rec_builder.py:_get_last_assign_index   self.program.var_to_index[v]  (a dict lookup)
+   program/transformer/constants_transformer.py   assign.subs(fixed_constants) AFTER ConditionsReducer;
+                      since 99cc64b a constant occurring in a condition is not folded
+   recurrences/rec_builder.py:_get_last_assign_index   self.program.var_to_index[v]  (a dict lookup);
+                      since 84580b5 the goal is folded first and unknown symbols are skipped
 
-   Positive theorems carry the hypothesis the code silently relies on; the *_refuted theorems
-   are the witnesses of defects 17, 19 and 18 of DESIGN section 6 on these models. *)
+   The models follow the REPAIRED code (/repo a5588d1, 99cc64b, 84580b5): the positive theorems
+   hold without extra hypotheses.  The rules of the code before the repairs are kept as *_old
+   definitions; the *_old_rule_refuted theorems are the witnesses of defects 17, 19 and 18 of
+   DESIGN section 6 on them (regression witnesses). *)
 From Coq Require Import List String QArith Qcanon ZArith Bool Arith Lia.
 From Polar Require Import Qcx Dist Syntax Sem Types.
 Import ListNotations.
@@ -26,6 +30,9 @@ Definition is_reduced (a : atom) : bool :=
   match a with (EVar _, _, EConst q) => is_int q | _ => false end.
 Definition cop_is_eq (o : cop) : bool := match o with Ceq => true | _ => false end.
 Definition is_normalized (a : atom) : bool :=
+  match a with (EVar _, o, EConst _) => cop_is_eq o | _ => false end.
+(* the rule before /repo a5588d1 *)
+Definition is_normalized_old (a : atom) : bool :=
   match a with (EVar _, o, EConst q) => is_int q && cop_is_eq o | _ => false end.
 
 (* get_valid_values *)
@@ -55,55 +62,70 @@ Definition get_normalized (T : tenv) (a : atom) : norm_result :=
     end
   else NErr.
 
-(* to_arithm raises no exception on c *)
-Fixpoint arithm_defined (T : tenv) (c : cond) : bool :=
+(* to_arithm raises no exception on c; [norm] is the is_normalized test in force *)
+Fixpoint arithm_defined_with (norm : atom -> bool) (T : tenv) (c : cond) : bool :=
   match c with
   | CTrue | CFalse => true
   | CAtom a o b =>
-      is_normalized (a, o, b) &&
+      norm (a, o, b) &&
       match a with EVar x => match tlookup T x with Some _ => true | None => false end | _ => false end
-  | CNot c1 => arithm_defined T c1
-  | CAnd c1 c2 | COr c1 c2 => arithm_defined T c1 && arithm_defined T c2
+  | CNot c1 => arithm_defined_with norm T c1
+  | CAnd c1 c2 | COr c1 c2 => arithm_defined_with norm T c1 && arithm_defined_with norm T c2
   end.
+Definition arithm_defined := arithm_defined_with is_normalized.
+Definition arithm_defined_old := arithm_defined_with is_normalized_old.
 
 Definition int_valued (T : tenv) : Prop :=
   forall x vs, tlookup T x = Some vs -> forallb is_int vs = true.
 
-Lemma arithm_defined_chain T x ws c0 :
-  arithm_defined T c0 = true ->
-  (forall w, In w ws -> arithm_defined T (eq_atom x w) = true) ->
-  arithm_defined T (fold_left (fun c w => COr c (eq_atom x w)) ws c0) = true.
+Lemma arithm_defined_chain norm T x ws c0 :
+  arithm_defined_with norm T c0 = true ->
+  (forall w, In w ws -> arithm_defined_with norm T (eq_atom x w) = true) ->
+  arithm_defined_with norm T (fold_left (fun c w => COr c (eq_atom x w)) ws c0) = true.
 Proof.
   revert c0; induction ws as [|w ws IH]; intros c0 H0 H; cbn [fold_left]; [exact H0|].
   apply IH.
-  - cbn [arithm_defined]. rewrite H0. apply H. left; reflexivity.
+  - cbn [arithm_defined_with]. rewrite H0. apply H. left; reflexivity.
   - intros w' Hw'. apply H. right; exact Hw'.
 Qed.
 
-(* with integer-valued types, whatever ConditionsNormalizer produces can be arithmetised *)
-Theorem normalized_arithmetizable T a c :
-  int_valued T -> get_normalized T a = NOk c -> arithm_defined T c = true.
+Lemma normalized_arithmetizable_with norm T a c :
+  (forall x vs w, tlookup T x = Some vs -> In w vs -> norm (EVar x, Ceq, EConst w) = true) ->
+  get_normalized T a = NOk c -> arithm_defined_with norm T c = true.
 Proof.
   intros HT H. unfold get_normalized in H. destruct (is_reduced a) eqn:Er; [|discriminate].
   destruct a as [[p o] b]. destruct p as [|x| | |]; try discriminate. destruct b as [q| | | |]; try discriminate.
   destruct (tlookup T x) as [vs|] eqn:Ex; [|discriminate]. injection H as <-.
-  assert (Hall : forall w, In w (valid_values vs o q) -> arithm_defined T (eq_atom x w) = true).
+  assert (Hall : forall w, In w (valid_values vs o q) -> arithm_defined_with norm T (eq_atom x w) = true).
   { intros w Hw. unfold valid_values in Hw. apply filter_In in Hw. destruct Hw as [Hw _].
-    cbn [arithm_defined eq_atom is_normalized cop_is_eq]. rewrite Ex.
-    pose proof (HT x vs Ex) as Hi. rewrite forallb_forall in Hi. rewrite (Hi w Hw). reflexivity. }
+    cbn [arithm_defined_with eq_atom]. rewrite Ex, (HT x vs w Ex Hw). reflexivity. }
   unfold or_chain. destruct (valid_values vs o q) as [|v vs'] eqn:Ev; [reflexivity|].
   apply arithm_defined_chain.
   - apply Hall. left; reflexivity.
   - intros w Hw. apply Hall. right; exact Hw.
 Qed.
 
-(* defect 17: without that hypothesis the normal form is refused by to_arithm
+(* repaired code: whatever ConditionsNormalizer produces can be arithmetised — ANY finite types *)
+Theorem normalized_arithmetizable T a c :
+  get_normalized T a = NOk c -> arithm_defined T c = true.
+Proof. apply normalized_arithmetizable_with. intros x vs w _ _. reflexivity. Qed.
+
+(* the rule before a5588d1 needed integer-valued types ... *)
+Theorem normalized_arithmetizable_old_rule T a c :
+  int_valued T -> get_normalized T a = NOk c -> arithm_defined_old T c = true.
+Proof.
+  intros HT. apply normalized_arithmetizable_with. intros x vs w Ex Hw.
+  cbn [is_normalized_old cop_is_eq]. pose proof (HT x vs Ex) as Hi. rewrite forallb_forall in Hi.
+  rewrite (Hi w Hw). reflexivity.
+Qed.
+
+(* ... defect 17: without it the normal form was refused by to_arithm
    (x = 1/2 {1/2} 3/2; if x < 1: ...  ->  x == 1/2  ->  "Atom x == 1/2 is not normalized") *)
-Theorem normalized_arithmetizable_refuted :
-  exists T a c, get_normalized T a = NOk c /\ arithm_defined T c = false.
+Theorem normalized_arithmetizable_old_rule_refuted :
+  exists T a c, get_normalized T a = NOk c /\ arithm_defined_old T c = false /\ arithm_defined T c = true.
 Proof.
   exists [("x", [mkq 1 2; mkq 3 2])], (EVar "x", Clt, EConst (mkq 1 1)), (eq_atom "x" (mkq 1 2)).
-  split; vm_compute; reflexivity.
+  repeat split; vm_compute; reflexivity.
 Qed.
 
 (* ---- ConstantsTransformer after ConditionsReducer ---- *)
@@ -118,6 +140,16 @@ Fixpoint esubst (x : var) (v : Qc) (e : expr) : expr :=
 Definition atom_subs (x : var) (v : Qc) (a : atom) : atom :=
   match a with (p, o, q) => (esubst x v p, o, esubst x v q) end.
 
+Definition atom_vars (a : atom) : list var := match a with (p, _, q) => vars_of p ++ vars_of q end.
+Definition mem_v (x : var) (l : list var) : bool := existsb (var_eqb x) l.
+
+(* ConstantsTransformer on the (already reduced) conditions of a program.  Old rule: substitute the
+   fixed constant everywhere.  Rule since 99cc64b: a constant that occurs in some condition is not
+   folded at all (it stays a variable and gets a singleton type). *)
+Definition fold_constant_old (k : var) (v : Qc) (conds : list atom) : list atom := map (atom_subs k v) conds.
+Definition fold_constant (k : var) (v : Qc) (conds : list atom) : list atom :=
+  if mem_v k (flat_map atom_vars conds) then conds else map (atom_subs k v) conds.
+
 (* folding a fixed constant keeps a reduced atom reduced iff the atom is not ABOUT the constant *)
 Theorem subs_keeps_reduced k v a :
   is_reduced a = true -> (forall o q, a <> (EVar k, o, q)) -> is_reduced (atom_subs k v a) = true.
@@ -127,38 +159,74 @@ Proof.
   apply String.eqb_eq in E. subst. exfalso. exact (Hne o (EConst q) eq_refl).
 Qed.
 
-(* defect 19:  a = 1 (never assigned in the loop);  if a == 0: ...   ->  "Atom 1 == 0 cannot be
-   normalized because it's not reduced" *)
-Theorem constants_after_reducer_refuted :
-  exists k v a T, is_reduced a = true /\ get_normalized T (atom_subs k v a) = NErr.
+(* repaired code: reduced conditions stay reduced, whatever the constant — no hypothesis *)
+Theorem fold_constant_keeps_reduced k v conds :
+  forallb is_reduced conds = true -> forallb is_reduced (fold_constant k v conds) = true.
 Proof.
-  exists "a", (mkq 1 1), (EVar "a", Ceq, EConst (mkq 0 1)), []. split; vm_compute; reflexivity.
+  intros H. unfold fold_constant. destruct (mem_v k (flat_map atom_vars conds)) eqn:Em; [exact H|].
+  rewrite forallb_forall in *. intros a' Ha'. apply in_map_iff in Ha'. destruct Ha' as (a & <- & Ha).
+  apply subs_keeps_reduced; [apply H; exact Ha|].
+  intros o q ->. assert (Hin : mem_v k (flat_map atom_vars conds) = true); [|congruence].
+  unfold mem_v. apply existsb_exists. exists k. split; [|apply String.eqb_refl].
+  apply in_flat_map. exists (EVar k, o, q). split; [exact Ha | left; reflexivity].
+Qed.
+
+(* defect 19 (rule before 99cc64b):  a = 1 (never assigned in the loop);  if a == 0: ...   ->
+   "Atom 1 == 0 cannot be normalized because it's not reduced" *)
+Theorem constants_after_reducer_old_rule_refuted :
+  exists k v conds T, forallb is_reduced conds = true /\
+    existsb (fun a => match get_normalized T a with NErr => true | _ => false end) (fold_constant_old k v conds) = true /\
+    forallb is_reduced (fold_constant k v conds) = true.
+Proof.
+  exists "a", (mkq 1 1), [(EVar "a", Ceq, EConst (mkq 0 1))], []. repeat split; vm_compute; reflexivity.
 Qed.
 
 (* ---- RecBuilder._get_last_assign_index: a lookup in the index of LOOP-BODY variables ---- *)
 Fixpoint var_index (body_vars : list var) (x : var) (i : nat) : option nat :=
   match body_vars with [] => None | y :: l => if var_eqb x y then Some i else var_index l x (S i) end.
-Fixpoint last_assign_index (body_vars : list var) (xs : list var) : option nat :=  (* None = KeyError *)
+(* rule before 84580b5: a variable outside the index is a KeyError (None) *)
+Fixpoint last_assign_index_old (body_vars : list var) (xs : list var) : option nat :=
   match xs with
   | [] => Some O
-  | x :: xs' => match var_index body_vars x 0, last_assign_index body_vars xs' with
+  | x :: xs' => match var_index body_vars x 0, last_assign_index_old body_vars xs' with
                 | Some i, Some j => Some (Nat.max (S i) j) | _, _ => None end
   end.
+(* rule since 84580b5: the goal's folded constants are replaced by their values first ([consts]),
+   symbols that are assigned nowhere are skipped *)
+Fixpoint last_assign_index (body_vars : list var) (xs : list var) : option nat :=
+  match xs with
+  | [] => Some O
+  | x :: xs' => match last_assign_index body_vars xs' with
+                | Some j => match var_index body_vars x 0 with Some i => Some (Nat.max (S i) j) | None => Some j end
+                | None => None
+                end
+  end.
+Definition goal_index (consts body_vars goal_vars : list var) : option nat :=
+  last_assign_index body_vars (filter (fun x => negb (existsb (var_eqb x) consts)) goal_vars).
+
 Lemma var_index_some l x : In x l -> forall i, var_index l x i <> None.
 Proof.
   induction l as [|y l IH]; intros H i; [destruct H|]. cbn [var_index].
   destruct (var_eqb x y) eqn:E; [discriminate|]. apply IH. destruct H as [->|H]; [|exact H].
   unfold var_eqb in E. rewrite String.eqb_refl in E. discriminate.
 Qed.
-Theorem goal_over_body_variables_indexed body_vars xs :
-  incl xs body_vars -> last_assign_index body_vars xs <> None.
+Theorem goal_over_body_variables_indexed_old_rule body_vars xs :
+  incl xs body_vars -> last_assign_index_old body_vars xs <> None.
 Proof.
-  induction xs as [|x xs IH]; intros H; cbn [last_assign_index]; [discriminate|].
+  induction xs as [|x xs IH]; intros H; cbn [last_assign_index_old]; [discriminate|].
   destruct (var_index body_vars x 0) eqn:E; [|exfalso; revert E; apply var_index_some; apply H; left; reflexivity].
-  destruct (last_assign_index body_vars xs) eqn:E2; [discriminate|].
+  destruct (last_assign_index_old body_vars xs) eqn:E2; [discriminate|].
   exfalso. apply IH; [intros y Hy; apply H; right; exact Hy | reflexivity].
 Qed.
-(* defect 18:  k = 2; x = 0; while true: x = x + k  — k is folded away, goal E(k*x) *)
-Theorem goal_over_folded_constant_refuted :
-  exists body_vars xs, last_assign_index body_vars xs = None.
-Proof. exists ["x"], ["k"; "x"]. reflexivity. Qed.
+(* repaired code: every goal is indexed — no hypothesis on its variables *)
+Theorem goal_indexed consts body_vars goal_vars : goal_index consts body_vars goal_vars <> None.
+Proof.
+  unfold goal_index. generalize (filter (fun x => negb (existsb (var_eqb x) consts)) goal_vars).
+  induction l as [|x l IH]; cbn [last_assign_index]; [discriminate|].
+  destruct (last_assign_index body_vars l); [|exact IH].
+  destruct (var_index body_vars x 0); discriminate.
+Qed.
+(* defect 18 (rule before 84580b5):  k = 2; x = 0; while true: x = x + k  — k is folded away, goal E(k*x) *)
+Theorem goal_over_folded_constant_old_rule_refuted :
+  exists consts body_vars xs, last_assign_index_old body_vars xs = None /\ goal_index consts body_vars xs = Some 1%nat.
+Proof. exists ["k"], ["x"], ["k"; "x"]. split; reflexivity. Qed.
